@@ -13,11 +13,24 @@ def gvec(rng):
         v[2] = 0.0
     elif k < 0.2:
         v[rng.randrange(3)] *= 1e-3
+    elif k < 0.35:      # nearly along the rotation axis
+        f = 10 ** rng.uniform(-3, -0.5)
+        v[0] *= f
+        v[1] *= f
     return v / np.linalg.norm(v)
 
 
 def case(rng):
-    tth = math.radians(rng.uniform(0.5, 150))
+    if rng.random() < 0.15:
+        # just inside the reachable cone: |g_xy| = sin(theta) sqrt(1+m), margin m in [1e-3, 1e-1] (two solutions, far from the 1e-6 tangency band)
+        tth = math.radians(rng.uniform(0.5, 30))
+        m = 10 ** rng.uniform(-3, -1)
+        gxy = math.sin(tth / 2) * math.sqrt(1 + m)
+        ph = rng.uniform(0, 2 * math.pi)
+        v = np.array([gxy * math.cos(ph), gxy * math.sin(ph), rng.choice([-1, 1]) * math.sqrt(max(0.0, 1 - gxy * gxy))])
+        chi = rng.choice([0.0, rng.uniform(-0.5, 0.5)])
+        return v, tth, chi, 0.0
+    tth = math.radians(rng.uniform(0.5, 150) if rng.random() < 0.7 else rng.uniform(0.5, 12))
     chi = rng.choice([0.0, rng.uniform(-0.5, 0.5), rng.uniform(-0.5, 0.5)])
     wedge = rng.choice([0.0, rng.uniform(-0.5, 0.5), rng.uniform(-0.5, 0.5)])
     return gvec(rng), tth, chi, wedge
